@@ -136,7 +136,13 @@ class SimReactor(object):
             if dc._sim_seq != s or dc.cancelled or dc.called:
                 heapq.heappop(self._heap)
                 continue
-            return dc.getTime()
+            if dc.delayed_time > 0.0:
+                # postponed by DelayedCall.reset(): re-key it, something else may be due first
+                heapq.heappop(self._heap)
+                dc.activate_delay()
+                self._push(dc)
+                continue
+            return dc.time
         return None
 
     def step(self):
